@@ -1552,7 +1552,19 @@ class Interp:
         for key, v in back:
             if key in outs:
                 fr.store[v.root] = fr._update(fr.store.get(v.root), list(v.proj), outs[key]) if v.proj else outs[key]
-        return ret
+        backmap = dict(back)
+
+        def unroot(x):
+            # references into re-rooted captured state that escape through the return value
+            if isinstance(x, Ref) and x.root in backmap:
+                o_ = backmap[x.root]
+                return Ref(o_.root, list(o_.proj) + list(x.proj))
+            if isinstance(x, Agg):
+                return Agg([unroot(y) for y in x.items], x.kind)
+            if isinstance(x, Opt):
+                return Opt(x.tag, unroot(x.payload), x.label)
+            return x
+        return unroot(ret)
 
     def _call_closure(self, path, captures, arg, where):
         sub = self._sub()
